@@ -466,7 +466,9 @@ func c15Servers(c *Ctx) {
 			var cands []string
 			for _, g := range files {
 				same := filepath.Dir(g) == filepath.Dir(f)
-				if g != f && same == (dmg.name == "other-rep-same-asset") {
+				// a file of another asset under the same representation id is a well-formed cache of that id: nothing in the
+				// file format tells it from the asset's own, and it is neither truncated nor corrupt, so it is no fault case
+				if g != f && same == (dmg.name == "other-rep-same-asset") && filepath.Base(g) != filepath.Base(f) {
 					cands = append(cands, g)
 				}
 			}
